@@ -40,15 +40,37 @@ func (cw *CodeWriter) emitRune(r rune) {
 	}
 }
 
+// needsSeparator reports whether writing a text that starts with next directly after
+// last would merge two tokens into a different one: a - -b must not become a--b
+// (a decrement), nor a + ++b become a+++b (which reads as a++ + b).
+func needsSeparator(last, next byte) bool {
+	return last == next && (next == '+' || next == '-')
+}
+
+// separate writes a space when the text about to be written would merge with the
+// last written character into another operator.
+func (cw *CodeWriter) separate(next byte) {
+	out := cw.Builder.String()
+	if len(out) > 0 && needsSeparator(out[len(out)-1], next) {
+		cw.emitRune(' ')
+	}
+}
+
 // WriteString writes a string to the buffer
 func (cw *CodeWriter) WriteString(s string) {
 	cw.flushPending()
+	if len(s) > 0 {
+		cw.separate(s[0])
+	}
 	cw.emitString(s)
 }
 
 // WriteRune writes a rune to the buffer
 func (cw *CodeWriter) WriteRune(r rune) {
 	cw.flushPending()
+	if r < 0x80 {
+		cw.separate(byte(r))
+	}
 	cw.emitRune(r)
 }
 
